@@ -739,6 +739,130 @@ fn request_side(rep: &mut Report, vectors: &str) {
 }
 
 // ---------------------------------------------------------------------------------------------
+// request side under cancellation (ReqSource.tla): the pipe drops a pending read() when the other
+// direction's timer fires and polls a fresh one when the exchange is re-armed
+
+struct GatedSrc {
+    chunks: Vec<Vec<u8>>,
+    permits: Arc<Mutex<usize>>,
+    consumed: Arc<Mutex<usize>>,
+}
+
+#[async_trait]
+impl VSource for GatedSrc {
+    async fn read(&mut self) -> io::Result<VData> {
+        // cancel-safe by construction: nothing is taken before a permit is there
+        std::future::poll_fn(|_cx| {
+            let mut p = self.permits.lock().unwrap();
+            if *p == 0 { return Poll::Pending; }
+            *p -= 1;
+            Poll::Ready(Ok(if self.chunks.is_empty() { VData::Eof } else { VData::Chunk(Bytes::from(self.chunks.remove(0))) }))
+        }).await
+    }
+    fn consume(&mut self, n: usize) -> io::Result<()> {
+        *self.consumed.lock().unwrap() += n;
+        Ok(())
+    }
+}
+
+fn request_cancel(rep: &mut Report, vectors: &[String]) {
+    for file in vectors {
+        for v in read_tagged(file, "RSB") {
+            let cl = v["cl"].as_i64().unwrap();
+            let lens: Vec<usize> = v["chunks"].as_array().unwrap().iter().map(|x| x.as_u64().unwrap() as usize).collect();
+            let body: Vec<u8> = (0..lens.iter().sum::<usize>()).map(|i| b'a' + (i % 26) as u8).collect();
+            let mut chunks = vec![];
+            let mut off = 0;
+            for l in &lens { chunks.push(body[off..off + l].to_vec()); off += l; }
+            let hist: Vec<String> = v["hist"].as_array().unwrap().iter().map(|x| x.as_str().unwrap().to_string()).collect();
+            let ncancel = hist.iter().filter(|a| *a == "Cancel").count();
+            for version in [VVersion::Http11, VVersion::Http2] {
+                if cl < 0 && version == VVersion::Http2 { continue; } // no Transfer-Encoding on HTTP/2
+                rep.eval();
+                let mut headers: Vec<(String, Vec<u8>)> = vec![("host".into(), b"origin.example".to_vec())];
+                if cl >= 0 { headers.push(("content-length".into(), cl.to_string().into_bytes())); } else { headers.push(("transfer-encoding".into(), b"chunked".to_vec())); }
+                let head = VRequestHead { method: "POST".into(), uri: "http://origin.example/up".into(), version, headers };
+                let class = format!("forwarded:req-cancel:{}:h{}", if cl < 0 { "te".to_string() } else if cl == 0 { "cl0".to_string() } else if (cl as usize) < body.len() { "cl-short".into() } else { "cl".into() }, if version == VVersion::Http2 { "2" } else { "1" });
+                let permits: Arc<Mutex<usize>> = Default::default();
+                let consumed: Arc<Mutex<usize>> = Default::default();
+                let shared: Shared = Default::default();
+                let detail = |what: String, got: &Vec<Value>| json!({"kind": "request-cancel", "behaviour": v, "version": if version == VVersion::Http2 { "2" } else { "1.1" }, "what": what, "observed": got});
+                let r = catch(|| {
+                    let (mut src, _sink) = into_forwarded(head, Box::new(GatedSrc { chunks: chunks.clone(), permits: permits.clone(), consumed: consumed.clone() }), Box::new(Responder(shared.clone())))?;
+                    let mut got: Vec<Value> = vec![];
+                    let mut i = 0;
+                    while i < hist.len() {
+                        match hist[i].as_str() {
+                            "ReadHead" | "ReadDone" => {
+                                let mut fut = Box::pin(src.read());
+                                match poll_once(fut.as_mut()) {
+                                    Poll::Pending => return Ok::<_, io::Error>((got, Some(format!("step {} ({}): read() did not complete", i, hist[i])))),
+                                    Poll::Ready(d) => { drop(fut); match d? {
+                                        VData::Eof => got.push(json!(["eof"])),
+                                        VData::Chunk(b) => { src.consume(b.len())?; got.push(if hist[i] == "ReadHead" { json!(["head"]) } else { json!(["chunk", String::from_utf8_lossy(&b)]) }); }
+                                    } }
+                                }
+                                i += 1;
+                            }
+                            "StartRead" => {
+                                let mut fut = Box::pin(src.read());
+                                match poll_once(fut.as_mut()) {
+                                    Poll::Pending => {}
+                                    Poll::Ready(d) => {
+                                        let what = match d { Ok(VData::Eof) => "Eof".to_string(), Ok(VData::Chunk(b)) => format!("a chunk of {} bytes", b.len()), Err(e) => format!("error {}", e) };
+                                        drop(fut);
+                                        return Ok((got, Some(format!("step {}: read() returned {} although the client's body source had nothing to deliver", i, what))));
+                                    }
+                                }
+                                let next = hist.get(i + 1).map(|s| s.as_str()).unwrap_or("");
+                                match next {
+                                    "Cancel" => { drop(fut); }
+                                    "Deliver" | "ClientEof" => {
+                                        *permits.lock().unwrap() += 1;
+                                        match poll_once(fut.as_mut()) {
+                                            Poll::Pending => { drop(fut); return Ok((got, Some(format!("step {}: read() still pending after the client delivered", i + 1)))); }
+                                            Poll::Ready(d) => { drop(fut); match d? {
+                                                VData::Eof => got.push(json!(["eof"])),
+                                                VData::Chunk(b) => { src.consume(b.len())?; got.push(json!(["chunk", String::from_utf8_lossy(&b)])); }
+                                            } }
+                                        }
+                                    }
+                                    _ => { drop(fut); }
+                                }
+                                i += 2;
+                            }
+                            _ => { i += 1; }
+                        }
+                    }
+                    Ok((got, None))
+                });
+                let (got, err) = match r {
+                    Err(p) => { rep.violation_with(format!("{}:panic", class), format!("panic: {}", p), || detail("panic".into(), &vec![])); continue; }
+                    Ok(Err(e)) => { rep.violation_with(format!("{}:error", class), format!("reading the request failed: {}", e), || detail("error".into(), &vec![])); continue; }
+                    Ok(Ok(x)) => x,
+                };
+                // expected: the model's `out`, chunk k carrying the next bytes of the client's body
+                let mut want: Vec<Value> = vec![];
+                let mut off = 0;
+                for o in v["out"].as_array().unwrap() {
+                    match o[0].as_str().unwrap() {
+                        "chunk" => { let n = o[1].as_u64().unwrap() as usize; want.push(json!(["chunk", String::from_utf8_lossy(&body[off..off + n])])); off += n; }
+                        k => want.push(json!([k])),
+                    }
+                }
+                if let Some(e) = err {
+                    rep.violation_with(format!("{}:{}", class, if ncancel > 0 { "after-cancel" } else { "plain" }), e.clone(), || detail(e.clone(), &got));
+                } else if got != want {
+                    rep.violation_with(format!("{}:{}", class, if ncancel > 0 { "after-cancel" } else { "plain" }),
+                        format!("the pipe obtained {:?} from the request source, ReqSource.tla says {:?}", got, want), || detail("a dropped read() changed what is forwarded".into(), &got));
+                }
+                if ncancel > 0 { rep.nontrivial(format!("rsb|{}|{}|{:?}", cl, if version == VVersion::Http2 { 2 } else { 1 }, hist)); }
+            }
+        }
+    }
+}
+
+// ---------------------------------------------------------------------------------------------
 // end to end through the real tunnel
 
 mod e2e {
@@ -1230,6 +1354,11 @@ fn main() {
     }
     let mode = arg_or("--mode", "all");
     let mut rep = Report::new(&format!("c17-{}", mode));
+    if mode == "reqcancel" {
+        let files: Vec<String> = arg("--rsb").expect("--rsb").split(',').map(|x| x.to_string()).collect();
+        request_cancel(&mut rep, &files);
+        rep.finish(&out_path);
+    }
     let vectors: Vec<String> = a.iter().enumerate().filter(|(_, x)| *x == "--vectors").map(|(i, _)| a[i + 1].clone()).collect();
     let exp_file = arg("--exp").unwrap_or_else(|| vectors[0].clone());
     let scs = load_scenarios(&exp_file);
